@@ -299,6 +299,59 @@ theorem mem_sweepFile {now : Nat} {s : Store} (hno : NoOther s) {i : Id} {r : Re
         | inl h' => exact Or.inl h'
         | inr h' => exact Or.inr ⟨h', h.2⟩
 
+/-- since the F14d repair no file content stops the sweep -/
+theorem sweepFile_never_aborted (now : Nat) (s : Store) : (sweepFile now s).2 = false := by
+  induction s with
+  | nil => rfl
+  | cons p ps ih =>
+    obtain ⟨j, q⟩ := p
+    cases q with
+    | good d e => simp only [sweepFile]; exact ih
+    | bad x => simp only [sweepFile]; exact ih
+
+/-- ... and it removes exactly the readable files with `expiry < now`, whatever else is there -/
+theorem mem_sweepFile_all {now : Nat} {s : Store} {i : Id} {r : Rec} :
+    (i, r) ∈ (sweepFile now s).1 ↔ (i, r) ∈ s ∧ ∀ d e, r = .good d e → ¬ e < now := by
+  induction s with
+  | nil => simp [sweepFile]
+  | cons p ps ih =>
+    obtain ⟨j, q⟩ := p
+    cases q with
+    | good d e =>
+      simp only [sweepFile]
+      split
+      · rename_i he
+        rw [ih]
+        constructor
+        · intro h; exact ⟨List.mem_cons_of_mem _ h.1, h.2⟩
+        · intro h
+          refine ⟨?_, h.2⟩
+          cases h.1 with
+          | head => exact absurd he (h.2 d e rfl)
+          | tail _ h' => exact h'
+      · rename_i he
+        simp only [List.mem_cons, ih]
+        constructor
+        · intro h
+          cases h with
+          | inl h => cases h; exact ⟨Or.inl rfl, fun d' e' hr => by cases hr; exact he⟩
+          | inr h => exact ⟨Or.inr h.1, h.2⟩
+        · intro h
+          cases h.1 with
+          | inl h' => exact Or.inl h'
+          | inr h' => exact Or.inr ⟨h', h.2⟩
+    | bad x =>
+      simp only [sweepFile, List.mem_cons, ih]
+      constructor
+      · intro h
+        cases h with
+        | inl h => cases h; exact ⟨Or.inl rfl, fun d' e' hr => by cases hr⟩
+        | inr h => exact ⟨Or.inr h.1, h.2⟩
+      · intro h
+        cases h.1 with
+        | inl h' => exact Or.inl h'
+        | inr h' => exact Or.inr ⟨h', h.2⟩
+
 /-- whatever happens, a sweep only removes entries (also when it is aborted). -/
 theorem mem_sweepFile_sub {now : Nat} {s : Store} {p : Id × Rec} (h : p ∈ (sweepFile now s).1) : p ∈ s := by
   induction s with
@@ -315,7 +368,11 @@ theorem mem_sweepFile_sub {now : Nat} {s : Store} {p : Id × Rec} (h : p ∈ (sw
         | tail _ h' => exact List.mem_cons_of_mem _ (ih h')
     | bad x =>
       cases x with
-      | other => simpa [sweepFile] using h
+      | other =>
+        simp only [sweepFile] at h
+        cases h with
+        | head => exact List.mem_cons_self
+        | tail _ h' => exact List.mem_cons_of_mem _ (ih h')
       | eof =>
         simp only [sweepFile] at h
         cases h with
@@ -374,7 +431,7 @@ theorem lookup_sweepFile_live {now : Nat} {s : Store} {i : Id} {d : Data} {e : N
         · simp only [lookup]; rw [if_neg hj]; exact ih h
       | bad x =>
         cases x with
-        | other => simp only [sweepFile, lookup]; rw [if_neg hj]; exact h
+        | other => simp only [sweepFile, lookup]; rw [if_neg hj]; exact ih h
         | eof => simp only [sweepFile, lookup]; rw [if_neg hj]; exact ih h
         | unpickling => simp only [sweepFile, lookup]; rw [if_neg hj]; exact ih h
 
